@@ -31,6 +31,7 @@ from dask_expr._repartition import Repartition
 from dask_expr._shuffle import (
     RearrangeByColumn,
     _contains_index_name,
+    _hash_keys,
     _is_numeric_cast_type,
     _select_columns_or_index,
 )
@@ -814,7 +815,7 @@ def _split_partition(df, on, nsplits):
         for col, dtype in keys.dtypes.items()
         if _is_numeric_cast_type(dtype)
     }
-    ind = partitioning_index(keys, nsplits, cast_dtype=dtypes or None)
+    ind = partitioning_index(_hash_keys(keys), nsplits, cast_dtype=dtypes or None)
     return group_split_dispatch(df, ind, nsplits, ignore_index=False)
 
 
@@ -844,7 +845,7 @@ def create_assign_index_merge_transfer():
             index = [index] if isinstance(index, str) else list(index)
             index = partitioning_index(df[index], npartitions)
         else:
-            index = partitioning_index(index, npartitions)
+            index = partitioning_index(_hash_keys(index), npartitions)
         df = df.assign(**{name: index})
         meta = meta.assign(**{name: 0})
         return merge_transfer(
